@@ -72,11 +72,19 @@ def run(index, tier="quick", seed=0) -> Result:
         # FF-2 zero branch
         want = "volume" if d == 3 else "area"
         found = None
+        stores = []
         for node in ast.walk(fn.node):
             if isinstance(node, ast.Assign) and isinstance(node.targets[0], ast.Subscript):
                 t = node.targets[0]
-                if isinstance(t.value, ast.Name) and "zero" in ast.unparse(t.slice) and "~" not in ast.unparse(t.slice):
-                    found = ast.unparse(node.value)
+                if isinstance(t.value, ast.Name) and isinstance(t.slice, (ast.Name, ast.UnaryOp)):
+                    stores.append((ast.unparse(t.slice), ast.unparse(node.value)))
+        # the store under the plain (non-inverted) mask is the q = 0 branch
+        for sl, val in stores:
+            if not sl.startswith("~") and any(o.startswith("~") and o[1:].strip("()") == sl for o, _ in stores if o != sl) or (not sl.startswith("~") and len(stores) == 1):
+                found = val
+        if found is None and stores:
+            plain = [v for sl, v in stores if not sl.startswith("~")]
+            found = plain[0] if plain else None
         if found == f"self.{want}":
             res.ok("FF-2", f"{label}:F(0)")
         else:
@@ -93,9 +101,9 @@ def run(index, tier="quick", seed=0) -> Result:
             ok = any(("self", "_equations") in e.arg.deps and "q" in e.arg.pdeps for e in trig)
             sign_ok = False
             for node in ast.walk(fn.node):
-                if isinstance(node, ast.Assign):
-                    src = ast.unparse(node)
-                    if "-eqn[3]" in src.replace(" ", "") or "-self._equations[:,3]" in src.replace(" ", ""):
+                if isinstance(node, ast.UnaryOp) and isinstance(node.op, ast.USub) and isinstance(node.operand, ast.Subscript):
+                    sl = ast.unparse(node.operand.slice).replace(" ", "")
+                    if sl in ("3", ":,3"):
                         sign_ok = True
             if ok and sign_ok:
                 res.ok("FF-4", label)
